@@ -35,6 +35,8 @@ CONST_DIVISOR = "isinstance(rhs, Integer) and rhs.value not in (-1, 0)"
 def run(chk: Check) -> None:
     ix = get_index()
     c05.run(chk, only_numeric=True)
+    run_shift_guards(chk, ix)
+    run_literal_conversion(chk, ix)
 
     r1 = chk.rule("R15.1", "every emission of a raw C division/modulo IntOp is guarded against a zero divisor (and -1 for signed operands)", floor=4)
     llb = ix.cls("mypyc.irbuild.ll_builder.LowLevelIRBuilder")
@@ -323,3 +325,35 @@ def run_division_guards(chk: Check, ix) -> None:
             r4.ok(key, "mypyc/lib-rt/CPy.h")
         else:
             r4.violation(key, "mypyc/lib-rt/CPy.h", f"fault predicate covers right == 0: {zero}" + (f"; left == -(1 << 63): {minleft}" if need_min else "") + " — the uncovered case reaches the C division (division by zero, or MIN / -1 overflow)")
+
+
+def run_shift_guards(chk: Check, ix) -> None:
+    """R15.8: a raw C shift of a fixed-width operand is not emitted for an unchecked shift count."""
+    r8 = chk.rule("R15.8", "in C a shift by a negative count or by a count >= the operand's width is undefined (x86 masks the count: `5 >> 64` gives 5), in Python `5 >> 64` is 0 and a negative count raises ValueError; LowLevelIRBuilder.fixed_width_int_op therefore has an arm for IntOp.LEFT_SHIFT / IntOp.RIGHT_SHIFT that checks the count (or handles a constant count) before the raw shift is emitted, as it has for DIV and MOD; falling through to the generic `self.int_op(type, lhs, rhs, op, line)` emits the C shift for every count", floor=1)
+    f = ix.func("mypyc.irbuild.ll_builder.LowLevelIRBuilder.fixed_width_int_op")
+    arms = [n for n in ast.walk(f.node) if isinstance(n, ast.If) and any(isinstance(x, ast.Attribute) and x.attr in ("LEFT_SHIFT", "RIGHT_SHIFT") for x in ast.walk(n.test))]
+    generic = [c for c in ast.walk(f.node) if isinstance(c, ast.Call) and call_name(c) == "int_op" and any(isinstance(a, ast.Name) and a.id == "op" for a in c.args)]
+    key = "fixed_width_int_op checks the shift count before emitting a raw C shift"
+    if arms:
+        r8.ok(key, f.loc(arms[0]))
+    elif generic:
+        r8.violation(key, f.loc(generic[-1]), "there is no arm for IntOp.LEFT_SHIFT / IntOp.RIGHT_SHIFT: shifts reach the generic `self.int_op(type, lhs, rhs, op, line)` and are emitted as plain C shifts whatever the count")
+    else:
+        raise AnalysisError("fixed_width_int_op: neither a shift arm nor the generic emission was found")
+
+
+def run_literal_conversion(chk: Check, ix) -> None:
+    """R15.9: an explicit conversion of an out-of-range literal is not folded by masking."""
+    r9 = chk.rule("R15.9", "`u8(n)` / `i16(n)` / `i32(n)` of a value that is out of range raise (R15.2 checks the run-time path); the specialisers in mypyc/irbuild/specialize.py that fold a *literal* argument at compile time must not reduce it modulo 2**width (`x & max_unsigned`): C15 says a conversion is rejected exactly when the value is out of range, never truncated", floor=1)
+    mod = ix.module("mypyc.irbuild.specialize")
+    n = 0
+    for f in sorted(mod.functions.values(), key=lambda f: f.node.lineno):
+        masks = [b for b in ast.walk(f.node) if isinstance(b, ast.BinOp) and isinstance(b.op, ast.BitAnd) and any(isinstance(x, ast.Name) and "max_unsigned" in x.id for x in ast.walk(b))]
+        if not masks:
+            continue
+        callers = sorted(q for q, g in ix.functions.items() if g.module is mod and g is not f and any(isinstance(c, ast.Call) and call_name(c) == f.name for c in ast.walk(g.node)))
+        n += 1
+        key = f"{f.qualname}: literal arguments of explicit native-int conversions are not reduced modulo 2**width"
+        r9.violation(key, f.loc(masks[0]), f"`{norm(masks[0])}` wraps an out-of-range literal instead of rejecting it; used by {[c.split('.')[-1] for c in callers]}")
+    if n == 0:
+        r9.ok("no compile-time masking of literal conversion arguments", mod.relpath)
